@@ -824,6 +824,158 @@ pub fn check_api_nlri(c: &ApiNlriCase) -> CheckResult {
     Ok(info)
 }
 
+// ---------------------------------------------------------------------------
+// AddPath / DeletePath / ListPath through the daemon's real gRPC handlers
+// ---------------------------------------------------------------------------
+
+#[derive(Clone, Debug, Serialize, Deserialize)]
+pub struct PathCase {
+    pub nlri: NlriCase,
+    pub attrs: AttrCase,
+    /// 0 = NEXT_HOP attribute, 1 = MP_REACH next hop, 2 = none
+    pub nh_form: u8,
+    pub nh_v6: bool,
+    pub identifier: u32,
+    pub muts: Vec<Mutation>,
+    /// replace the request's family by this (afi, safi) after the mutations
+    #[serde(default)]
+    pub family_override: Option<(i32, i32)>,
+}
+
+fn path_of(c: &PathCase) -> Option<(Family, api::Path)> {
+    let family = fam_of(c.nlri.fam);
+    let n = decoded_nlri(family, &c.nlri.nlri.build()).ok()??;
+    if n.len() != 1 {
+        return None;
+    }
+    let mut spec = c.attrs.attrs.clone();
+    spec.ext_communities.extend(c.attrs.ext.iter().map(|(t, s, v)| ext_u64(*t, *s, *v)));
+    // operators do not send these; local_path drops them
+    spec.originator_id = None;
+    spec.cluster_list = vec![];
+    let decoded = decoded_attrs(spec.build()).ok()??;
+    let mut pattrs: Vec<api::Attribute> = decoded.iter().map(convert::attr_to_api).collect();
+    let nh = if c.nh_v6 { "2001:db8::7".to_string() } else { "192.0.2.7".to_string() };
+    match c.nh_form % 3 {
+        0 => pattrs.push(api::Attribute { attr: Some(api::attribute::Attr::NextHop(api::NextHopAttribute { next_hop: nh })) }),
+        1 => pattrs.push(api::Attribute { attr: Some(api::attribute::Attr::MpReach(api::MpReachNlriAttribute { family: Some(convert::family_to_api(family)), next_hops: vec![nh], nlris: vec![] })) }),
+        _ => {}
+    }
+    Some((family, api::Path { nlri: Some(convert::nlri_to_api(&n[0])), pattrs, family: Some(convert::family_to_api(family)), identifier: c.identifier, ..Default::default() }))
+}
+
+fn attr_key(a: &api::Attribute) -> String {
+    format!("{a:?}")
+}
+
+pub fn check_api_path(c: &PathCase) -> CheckResult {
+    let Some((seed_family, seed)) = path_of(c) else { return Ok(CaseInfo::trivial().class("no-seed")) };
+    let bytes = seed.encode_to_vec();
+    let mutated = pb::mutate(&bytes, &c.muts);
+    let changed = mutated != bytes;
+    let Ok(mut path) = api::Path::decode(&mutated[..]) else { return Ok(CaseInfo::trivial().class("not-protobuf")) };
+    if let Some((afi, safi)) = c.family_override {
+        path.family = Some(api::Family { afi, safi });
+    }
+    let changed = changed || c.family_override.is_some();
+    let rt = tokio::runtime::Builder::new_current_thread().enable_all().build().map_err(|e| Failure::new("harness", e.to_string()))?;
+    let rig = rt.block_on(async { crate::event::verif::ApiRig::new() });
+    let family_api = path.family.unwrap_or(api::Family { afi: 1, safi: 1 });
+    let family = convert::family_from_api(&family_api);
+    let fam = family_name(family);
+    let wit = |f: Failure| f.with("family", fam).with("mutated", changed);
+    let uuid = match catch(|| rt.block_on(rig.add_path(path.clone()))).map_err(|p| wit(p.into_failure("AddPath")))? {
+        Err(_) => return Ok(CaseInfo::nt(changed).class("rejected")),
+        Ok(u) => u,
+    };
+    let mut info = CaseInfo::nt(true).class("accepted");
+    // what the converters make of the request (they are judged by the other sub-checks)
+    let Some(n_api) = path.nlri.clone() else { return Err(wit(Failure::new("api-path", "AddPath accepted a path without NLRI"))) };
+    let Ok(net) = convert::net_from_api(n_api, family) else { return Err(wit(Failure::new("api-path", "AddPath accepted an NLRI that net_from_api refuses"))) };
+    let mut want: Vec<packet::Attribute> = Vec::new();
+    for a in &path.pattrs {
+        match convert::attr_from_api(a.clone()) {
+            Err(_) => return Err(wit(Failure::new("api-path", format!("AddPath accepted the attribute {a:?}, which attr_from_api refuses")))),
+            Ok(x) => {
+                if !matches!(x.code(), packet::Attribute::NEXTHOP | packet::Attribute::MP_REACH | packet::Attribute::MP_UNREACH | packet::Attribute::ORIGINATOR_ID | packet::Attribute::CLUSTER_LIST) {
+                    want.push(x);
+                }
+            }
+        }
+    }
+    if !want.iter().any(|a| a.code() == packet::Attribute::ORIGIN) {
+        want.push(packet::Attribute::new_with_value(packet::Attribute::ORIGIN, 0).unwrap());
+    }
+    if !want.iter().any(|a| a.code() == packet::Attribute::AS_PATH) {
+        want.push(packet::Attribute::empty_as_path());
+    }
+    let mut want_keys: Vec<String> = want.iter().map(|a| attr_key(&convert::attr_to_api(a))).collect();
+    want_keys.sort();
+    let want_nlri = convert::nlri_to_api(&net);
+
+    let listed = catch(|| rt.block_on(rig.list(family_api))).map_err(|p| wit(p.into_failure("ListPath")))?.map_err(|e| wit(Failure::new("api-path", format!("ListPath fails after a successful AddPath: {e:?}"))))?;
+    let mine: Vec<&api::Path> = listed.iter().flat_map(|d| d.paths.iter()).filter(|p| p.nlri.as_ref() == Some(&want_nlri)).collect();
+    let total: usize = listed.iter().map(|d| d.paths.len()).sum();
+    if total != 1 || mine.len() != 1 {
+        return Err(wit(Failure::new("api-path", format!("after one AddPath of {:?} the {family:?} table lists {total} path(s), {} of them for that NLRI; listed: {:?}", path.nlri, mine.len(), listed.iter().map(|d| d.prefix.clone()).collect::<Vec<_>>())).with("what", "count")));
+    }
+    let got = mine[0];
+    let mut got_keys: Vec<String> = got.pattrs.iter().map(attr_key).collect();
+    got_keys.sort();
+    if got_keys != want_keys {
+        let miss: Vec<_> = want_keys.iter().filter(|k| !got_keys.contains(k)).take(2).collect();
+        let extra: Vec<_> = got_keys.iter().filter(|k| !want_keys.contains(k)).take(2).collect();
+        return Err(wit(Failure::new("api-path", format!("the listed path differs from what was added: submitted but not listed {miss:?}; listed but not submitted {extra:?}")).with("what", "attributes")));
+    }
+    if got.identifier != path.identifier {
+        return Err(wit(Failure::new("api-path", format!("path identifier {} added, {} listed", path.identifier, got.identifier)).with("what", "identifier")));
+    }
+    if got.family != Some(family_api) {
+        return Err(wit(Failure::new("api-path", format!("family {:?} added, {:?} listed", family_api, got.family)).with("what", "family")));
+    }
+    // delete by uuid: gone
+    catch(|| rt.block_on(rig.delete_path(uuid.clone()))).map_err(|p| wit(p.into_failure("DeletePath")))?.map_err(|e| wit(Failure::new("api-path", format!("DeletePath of the uuid returned by AddPath fails: {e:?}")).with("what", "delete")))?;
+    let after = catch(|| rt.block_on(rig.list(family_api))).map_err(|p| wit(p.into_failure("ListPath")))?.map_err(|e| wit(Failure::new("api-path", format!("ListPath fails: {e:?}"))))?;
+    if after.iter().any(|d| !d.paths.is_empty()) {
+        return Err(wit(Failure::new("api-path", "the path is still listed after DeletePath").with("what", "delete")));
+    }
+    let _ = seed_family;
+    info.classes.push(if changed { "mutated-and-accepted" } else { "as-generated" });
+    Ok(info)
+}
+
+/// ListPath shows the next hop of a path (GoBGP lists it as NEXT_HOP / MP_REACH_NLRI)
+pub fn check_listing_nexthop(v6: &bool) -> CheckResult {
+    let c = PathCase {
+        nlri: NlriCase { fam: if *v6 { 1 } else { 0 }, nlri: if *v6 { NlriSpec::V6 { addr: u128v(0x2001_0db8_0001u128 << 80), len: 48 } } else { NlriSpec::V4 { addr: 0x0a010000, len: 16 } } },
+        attrs: AttrCase { attrs: AttrSpec { origin: Some(0), as_path: Some(vec![]), ..AttrSpec::default() }, ext: vec![], rich: vec![] },
+        nh_form: if *v6 { 1 } else { 0 },
+        nh_v6: *v6,
+        identifier: 0,
+        muts: vec![],
+        family_override: None,
+    };
+    let Some((_, path)) = path_of(&c) else { return Err(Failure::new("harness", "no seed")) };
+    let rt = tokio::runtime::Builder::new_current_thread().enable_all().build().map_err(|e| Failure::new("harness", e.to_string()))?;
+    let rig = rt.block_on(async { crate::event::verif::ApiRig::new() });
+    let fam = path.family.unwrap();
+    rt.block_on(rig.add_path(path)).map_err(|e| Failure::new("api-path", format!("AddPath of a plain path fails: {e:?}")))?;
+    let listed = rt.block_on(rig.list(fam)).map_err(|e| Failure::new("api-path", format!("{e:?}")))?;
+    let shows = listed.iter().flat_map(|d| d.paths.iter()).flat_map(|p| p.pattrs.iter()).any(|a| matches!(a.attr, Some(api::attribute::Attr::NextHop(_)) | Some(api::attribute::Attr::MpReach(_))));
+    if !shows {
+        return Err(Failure::new("listing-omits-nexthop", format!("a path added with next hop {} is listed without any next hop (neither NEXT_HOP nor MP_REACH_NLRI among {:?})", if *v6 { "2001:db8::7" } else { "192.0.2.7" }, listed.iter().flat_map(|d| d.paths.iter()).map(|p| p.pattrs.len()).collect::<Vec<_>>())).with("v6", *v6));
+    }
+    Ok(CaseInfo::nt(true))
+}
+
+pub fn arb_path_case() -> impl Strategy<Value = PathCase> {
+    let fam_override = proptest::option::weighted(0.08, (prop_oneof![Just(1i32), Just(2), Just(25), Just(65537), Just(65538), Just(-1), Just(0)], prop_oneof![Just(1i32), Just(2), Just(128), Just(257), Just(258), Just(384), Just(-1), Just(0)]));
+    (arb_nlri_case(), arb_attr_case(), 0u8..3, any::<bool>(), prop_oneof![3 => Just(0u32), 1 => any::<u32>()], pb::arb_mutations(3), fam_override).prop_map(|(nlri, mut attrs, nh_form, nh_v6, identifier, muts, family_override)| {
+        attrs.rich.clear();
+        PathCase { nlri, attrs, nh_form, nh_v6, identifier, muts, family_override }
+    })
+}
+
 pub fn arb_api_attr_case() -> impl Strategy<Value = ApiAttrCase> {
     (arb_aseed(), pb::arb_mutations(4)).prop_map(|(seed, muts)| ApiAttrCase { seed, muts })
 }
@@ -852,6 +1004,8 @@ pub fn run(r: &Run) {
     r.prop("attr-rt", r.tier.pick(30_000, 1_000_000), arb_attr_case, check_attr_rt);
     r.prop("api-attr", r.tier.pick(60_000, 2_000_000), arb_api_attr_case, check_api_attr);
     r.prop("api-nlri", r.tier.pick(60_000, 2_000_000), arb_api_nlri_case, check_api_nlri);
+    r.prop("api-path", r.tier.pick(20_000, 600_000), arb_path_case, check_api_path);
+    r.fixed("listing-shows-nexthop", &[false, true], check_listing_nexthop);
 }
 
 pub fn replay(sub: &str, case: &Value) -> Result<CheckResult, String> {
@@ -863,6 +1017,8 @@ pub fn replay(sub: &str, case: &Value) -> Result<CheckResult, String> {
         "attr-rt" => Ok(check_attr_rt(&decode_case(case)?)),
         "api-attr" => Ok(check_api_attr(&decode_case(case)?)),
         "api-nlri" => Ok(check_api_nlri(&decode_case(case)?)),
+        "api-path" => Ok(check_api_path(&decode_case(case)?)),
+        "listing-shows-nexthop" => Ok(check_listing_nexthop(&decode_case(case)?)),
         _ => Err(format!("unknown sub-check {sub}")),
     }
 }
